@@ -16,7 +16,7 @@ def run(ck):
         ck.write_generated("Errno.lean", gen_errno.generate(REPO, ck.work))
         ck.write_generated("LockFlags.lean", gen_lock.generate(REPO, ck.work))
     except Exception as e:
-        ck.machinery_error("translator failed: %r" % (e,)); return
+        ck.translator_failed("translator failed: %r" % (e,))
     if not ck.build_driver(): return
     if not ck.prove(["ZixModel.Properties.C19"]):
         ck.report_proof_failure("theorems about file locks / regenerated flock flags no longer build")
